@@ -404,7 +404,9 @@ def normalize(tree, relpath, digest=None):
                 for q in m:
                     known.add(q.rsplit(".", 1)[-1])
             R["_names"] = known
-        st = inline.inline_new_helpers(tree, ref, known)
+        # "new" = absent from this module's reference; a method name known only in unrelated modules is no obstacle
+        local_known = {q.rsplit(".", 1)[-1] for q in ref}
+        st = inline.inline_new_helpers(tree, ref, local_known)
         if st.get("inlined"):
             tree = _nf(tree)
             notes["inlined"] = st
